@@ -182,6 +182,10 @@ type world struct {
 	kind   string
 	p      params
 	exits0 int
+
+	connMu sync.Mutex
+	closed bool
+	conns  []net.Conn // node-to-node connections (closed with the world: h2c connections are hijacked)
 }
 
 func commitTx(n *sim.CNode, name string, ps uint32, from, to int) error {
@@ -222,6 +226,25 @@ func buildWorld(kind string, p params) (*world, error) {
 	cfg := func(s *litefs.Store) {
 		s.HaltAcquireTimeout = 200 * time.Millisecond
 		s.HaltLockTTL = time.Hour
+		// same transport as lhttp.NewClient(), but the connections are remembered so that they can be
+		// closed with the world (closing an h2c server does not close its hijacked connections)
+		if fc, ok := s.Client.(*sim.FaultClient); ok && fc.Inner != nil {
+			fc.Inner.HTTPClient = &http.Client{Transport: &http2.Transport{AllowHTTP: true,
+				DialTLS: func(network, addr string, _ *tls.Config) (net.Conn, error) {
+					c, err := net.Dial(network, addr)
+					if err == nil {
+						w.connMu.Lock()
+						if w.closed {
+							w.connMu.Unlock()
+							_ = c.Close()
+							return nil, fmt.Errorf("cluster closed")
+						}
+						w.conns = append(w.conns, c)
+						w.connMu.Unlock()
+					}
+					return c, err
+				}}}
+		}
 	}
 	opts := sim.ClusterNodeOpts{Candidate: true, Compress: p.Compress, Configure: cfg}
 	fail := func(err error) (*world, error) { w.close(); return nil, err }
@@ -284,6 +307,12 @@ func (w *world) close() {
 	}
 	if w.cl != nil {
 		w.cl.Close()
+		w.connMu.Lock()
+		for _, c := range w.conns {
+			_ = c.Close()
+		}
+		w.conns, w.closed = nil, true
+		w.connMu.Unlock()
 	}
 	_ = os.RemoveAll(w.dir)
 }
@@ -798,6 +827,14 @@ type result struct {
 func send(c concrete, proto string, timeout time.Duration, localIP string) result {
 	var res result
 	var mu sync.Mutex
+	var conns []net.Conn
+	defer func() { // a cancelled stream leaves its connection busy for a moment: close explicitly
+		mu.Lock()
+		for _, c := range conns {
+			_ = c.Close()
+		}
+		mu.Unlock()
+	}()
 	dial := func(ctx context.Context, network, addr string) (net.Conn, error) {
 		var d net.Dialer
 		if localIP != "" {
@@ -807,6 +844,7 @@ func send(c concrete, proto string, timeout time.Duration, localIP string) resul
 		if err == nil {
 			mu.Lock()
 			res.Local = conn.LocalAddr().String()
+			conns = append(conns, conn)
 			mu.Unlock()
 			if tc, ok := conn.(*net.TCPConn); ok {
 				_ = tc.SetLinger(0) // no TIME_WAIT litter: thousands of one-shot connections
@@ -1224,6 +1262,17 @@ func main() {
 	}
 	rep.Extra["params"] = plist
 	rep.Extra["edges_emitted"] = len(edges)
+	fdKinds := map[string]int{}
+	for _, f := range lsNames("/proc/self/fd") {
+		t, _ := os.Readlink("/proc/self/fd/" + f)
+		if i := strings.IndexAny(t, ":["); i > 0 {
+			t = t[:i]
+		} else if strings.HasPrefix(t, "/") {
+			t = "file " + filepath.Base(t)
+		}
+		fdKinds[t]++
+	}
+	rep.Extra["open_file_descriptors_at_end"] = fdKinds
 	rep.Extra["edges_replayed"] = st.edges
 	rep.Extra["edges_skipped_source_state_not_reached"] = st.noState
 	rep.Extra["clusters_built"] = st.rebuilds
